@@ -157,6 +157,81 @@ theorem whole_network_transitivity (A : Adj) (L : List Nat) :
 example : ctCounts (fun a b => a != b) [0] [1, 2, 3] = (3, 3) := by decide
 example : ctCounts (fun a b => (a == 0 || b == 0) && a != b) [0] [1, 2, 3] = (0, 3) := by decide
 
+/-! ### dense = sparse -/
+
+/-- **`cross_transitivity_sparse` = `cross_transitivity`** on undirected networks: the
+pure-Python twin, which works on positions of `node_list1 + node_list2` (offsets `N1 + …`,
+guard `cross_degree[i] > 1`, conditions `A'[i,j] ∧ A'[i,k]` / `A'[j,k]`), produces the same
+triangle and triple counts as the compiled kernel, for all lists in any order. -/
+theorem ctSparse_eq_dense (A : Adj) (hA : Symm A) (L1 L2 : List Nat) :
+    ctSparseCounts (crossOutDegree A L1 L2) A L1 L2 = ctCounts A L1 L2 := by
+  rw [ctCounts_eq_pairSums]
+  unfold ctSparseCounts
+  simp only []
+  have hrow : ∀ (acc : Nat × Nat), ∀ i ∈ List.range L1.length,
+      (if (crossOutDegree A L1 L2).getD i 0 > 1 then
+        (List.range' L1.length L2.length).foldl (fun acc j =>
+          (List.range' L1.length (j - L1.length)).foldl (fun acc k =>
+            if catAdj A L1 L2 i j && catAdj A L1 L2 i k then
+              (if catAdj A L1 L2 j k then acc.1 + 1 else acc.1, acc.2 + 1)
+            else acc) acc) acc
+       else acc)
+      = (acc.1 + (fun i => pairSum (fun n2 n3 =>
+              b2n (A (L1.getD i 0) n2 && (A n2 n3 && A n3 (L1.getD i 0)))) L2) i,
+         acc.2 + (fun i => pairSum (fun n2 n3 =>
+              b2n (A (L1.getD i 0) n2 && A (L1.getD i 0) n3)) L2) i) := by
+    intro acc i hi
+    have hi' : i < L1.length := List.mem_range.mp hi
+    have hdeg : (crossOutDegree A L1 L2).getD i 0
+        = (L2.map fun x => b2n (A (L1.getD i 0) x)).sum := by
+      simp [crossOutDegree, rowSums, blockN, block, List.getD_eq_getElem?_getD, hi',
+        Function.comp_def]
+    have htri : pairSum (fun y x => b2n ((A (L1.getD i 0) y && A (L1.getD i 0) x) && A y x)) L2
+        = pairSum (fun n2 n3 => b2n (A (L1.getD i 0) n2 && (A n2 n3 && A n3 (L1.getD i 0)))) L2 := by
+      apply pairSum_congr
+      intro a b
+      rw [hA b (L1.getD i 0)]
+      cases A (L1.getD i 0) a <;> cases A (L1.getD i 0) b <;> cases A a b <;> rfl
+    split
+    · rw [sparse_row A L1 L2 i hi', htri]
+    · rename_i hle
+      rw [hdeg] at hle
+      have hboth := pairSum_both (fun x => A (L1.getD i 0) x) L2
+      have hz : pairSum (fun n2 n3 => b2n (A (L1.getD i 0) n2 && A (L1.getD i 0) n3)) L2 = 0 := by
+        have : (L2.map fun x => b2n (A (L1.getD i 0) x)).sum
+            * ((L2.map fun x => b2n (A (L1.getD i 0) x)).sum - 1) = 0 := by
+          generalize (L2.map fun x => b2n (A (L1.getD i 0) x)).sum = c at hle
+          have : c = 0 ∨ c = 1 := by omega
+          rcases this with h | h <;> simp [h]
+        simp only [this] at hboth
+        omega
+      have hle2 : pairSum (fun n2 n3 =>
+            b2n (A (L1.getD i 0) n2 && (A n2 n3 && A n3 (L1.getD i 0)))) L2
+          ≤ pairSum (fun n2 n3 => b2n (A (L1.getD i 0) n2 && A (L1.getD i 0) n3)) L2 := by
+        apply pairSum_le
+        intro a b
+        rw [hA b (L1.getD i 0)]
+        simp only [b2n]
+        cases A (L1.getD i 0) a <;> cases A a b <;> cases A (L1.getD i 0) b <;> simp
+      simp only [hz] at hle2 ⊢
+      have : pairSum (fun n2 n3 =>
+            b2n (A (L1.getD i 0) n2 && (A n2 n3 && A n3 (L1.getD i 0)))) L2 = 0 := by omega
+      rw [this]
+      rfl
+  rw [foldl_congr_mem _ _ _ _ hrow, foldl_pair_add_nat]
+  have e := map_getD_range L1
+  simp only [Nat.zero_add]
+  conv_rhs => rw [← e]
+  simp [List.map_map, Function.comp_def]
+
+/-- hence the two methods return the same number on undirected networks -/
+theorem crossTransitivitySparse_eq (A : Adj) (hA : Symm A) (L1 L2 : List Nat) :
+    crossTransitivitySparse false A L1 L2 = crossTransitivity A L1 L2 := by
+  simp [crossTransitivitySparse, crossTransitivity, crossDegree, ctSparse_eq_dense A hA]
+
+example : ctSparseCounts (crossOutDegree (fun a b => a != b) [0] [1, 2, 3])
+    (fun a b => a != b) [0] [1, 2, 3] = (3, 3) := by decide
+
 /-! ### n.s.i. kernels = published double sums -/
 
 /-- **kernel = definition** (`_nsi_cross_local_clustering`): for a symmetric extended adjacency
